@@ -234,7 +234,7 @@ for _fn in ["IndexNonASCII", "ContainsNonASCII"]:
 # properties whose statement IS "the result equals this definition" (a disagreement with Spec / the scalar
 # definition is an input on which the property fails); for the others a disagreement is a broken
 # correspondence; for C05/C18 the theorems are about the effect summary, not about Spec
-SPEC_DEFINES = {"C01", "C02", "C04", "C08", "C09", "C10", "C11", "C12", "C13", "C15"}
+SPEC_DEFINES = {"C01", "C02", "C03", "C04", "C08", "C09", "C10", "C11", "C12", "C13", "C15"}
 SPEC_IRRELEVANT = {"C05", "C18"}
 
 
